@@ -31,6 +31,9 @@ type c18Case struct {
 	// Before / BeforeOrder: an earlier population of the same objects (same names and creation times) that was fully
 	// reconciled in BeforeOrder before the user edited it into Settings (reference added, selector repaired, a setting
 	// deleted - reference "gone" in Settings); the statuses written then are still stored when Order starts
+	// OwnLabels: the setting objects carry labels in their own metadata (a chart / kustomize overlay adds them); the
+	// nodes do not carry those labels
+	OwnLabels   bool         `json:"settings_carry_own_labels,omitempty"`
 	Before      []c18Setting `json:"before,omitempty"`
 	BeforeOrder []int        `json:"before_order,omitempty"`
 }
@@ -73,6 +76,9 @@ func c18Build(c c18Case) []client.Object {
 		st := &v1.ExtendedDaemonsetSetting{ObjectMeta: metav1.ObjectMeta{Namespace: "ns", Name: fmt.Sprintf("set%d", i+1)},
 			Spec: v1.ExtendedDaemonsetSettingSpec{NodeSelector: c18Selector(s.Sel),
 				Containers: []v1.ExtendedDaemonsetSettingContainerSpec{{Name: "main", Resources: corev1.ResourceRequirements{Requests: corev1.ResourceList{corev1.ResourceCPU: qty(fmt.Sprintf("%d00m", i+1))}}}}}}
+		if c.OwnLabels {
+			st.Labels = map[string]string{"app.kubernetes.io/managed-by": "Helm", "k": "zzz"}
+		}
 		off := 0
 		if !c.EqualTimes {
 			off = i
@@ -350,6 +356,9 @@ func TestC18(t *testing.T) {
 				for _, np := range nodePops {
 					for _, ord := range permutations(len(cur)) {
 						cases = append(cases, c18Case{Settings: append([]c18Setting{}, cur...), EqualTimes: eq, Nodes: np, Order: ord})
+						if len(cur) == 2 {
+							cases = append(cases, c18Case{Settings: append([]c18Setting{}, cur...), EqualTimes: eq, Nodes: np, Order: ord, OwnLabels: true})
+						}
 						if len(cur) == 2 { // twice around
 							cases = append(cases, c18Case{Settings: append([]c18Setting{}, cur...), EqualTimes: eq, Nodes: np, Order: append(append([]int{}, ord...), ord...)})
 						}
